@@ -9,6 +9,6 @@ import (
 
 const hooksAvailable = false
 
-func unitLevel(c *ev.Ctx, L, Lpair int)                            {}
-func longUnit(c *ev.Ctx, fam []string, decs []decimal.Dec)         {}
-func replayUnit(cs caseT) (bool, string)                           { return false, "hooks unavailable" }
+func unitLevel(c *ev.Ctx, L, Lpair int)                    {}
+func longUnit(c *ev.Ctx, fam []string, decs []decimal.Dec) {}
+func replayUnit(cs caseT) (bool, string)                   { return false, "hooks unavailable" }
